@@ -150,7 +150,7 @@ def p4_swap_remove_fixup(prog):
     return r
 
 
-@rule('P9', props=['C01', 'C05', 'C13', 'C03', 'C04', 'C10'], floor=8)
+@rule('P9', props=['C01', 'C05', 'C13', 'C03', 'C04', 'C10', 'C17'], floor=8)
 def p9_length_bookkeeping(prog):
     """Archetype.length is written only by the row operations, with the matching delta, and only
     after the column walk it accounts for: +1 after the three push walks, +component_len after the
